@@ -218,7 +218,28 @@ class Run(object):
             return "ok"
         if self.state is None:
             return "skip"
+        if rec["op"] == "gate":
+            return self.op_gate(rec)
         return self.op_sample(rec)
+
+    def op_gate(self, rec):
+        """The caller applies a single-qubit unitary to one site of the SAME state object by assigning a new core (as
+        ode.tjm does with its jump operators).  Norm and right-orthonormality are preserved, so the state stays in the
+        property's domain; every later sampler call must see the new state (no result may be remembered per object)."""
+        i = int(rec["site"])
+        if not (0 <= i < self.state.order):
+            return "skip"
+        g = np_gen(rec.get("seed", 0))
+        z = g.standard_normal((2, 2)) + 1j * g.standard_normal((2, 2))
+        q, r = np.linalg.qr(z)
+        u = q * (np.diag(r) / np.abs(np.diag(r)))
+        new = np.einsum("ab,rbcs->racs", u, np.asarray(self.state.cores[i]).astype(complex))
+        self.state.cores[i] = new
+        self.cores[i] = new.copy()
+        self.snap = M.Snapshot(self.state)
+        self.log.add("gate", i, arr_digest(self.snap.dense))
+        self.probes["state_modified_in_place_between_calls"] += 1
+        return "ok"
 
     def op_sample(self, rec):
         n = self.state.order
@@ -379,6 +400,10 @@ def generate_and_run(seed, keep_events=False):
                 rec["c"] = rnd.choice((0.0, 0.25, 0.5, 0.75, 1.0 - 2.0 ** -53, rnd.random()))
             records.append(rec)
             run.step(rec)
+            if rnd.random() < 0.25:
+                rec = {"op": "gate", "site": rnd.randrange(n), "seed": rnd.getrandbits(32)}
+                records.append(rec)
+                run.step(rec)
     except Violation as v:
         viol = v
     finally:
@@ -404,7 +429,9 @@ def replay(records, keep_events=False):
 
 NAME = "born"
 RULE = ("one history = one normalised right-orthonormal n-qubit state (n 1-8, ranks 1-4, complex; random / product / "
-        "computational-basis / GHZ / W) followed by 1-5 sampler calls on the SAME state object, each with a measured "
+        "computational-basis / GHZ / W; own QR preparation or the library's ortho_right/norm; all-complex or minimal-dtype "
+        "storage) followed by 1-5 sampler calls on the SAME state object, between which the caller may apply a random "
+        "single-qubit unitary to one site in place, each with a measured "
         "site set (sorted or shuffled), a sample count (1-64, or 2000-20000 in stream mode) and a variate plan served "
         "through the numpy.random.rand seam: constant, adversarial (+-1e-6 around each conditional probability on the "
         "oracle's path, 0.0, 1-2^-53), seeded matrix, seeded stream. NON-TRIVIAL = at least one sampler call whose "
@@ -465,7 +492,8 @@ def run_one(prop, seed, faults, want_events=False):
     if exact:
         spec = records[0]["spec"]
         key = H("born", spec["n"], spec["ranks"], spec["kind"],
-                [(tuple(r["measure"]), min(r["N"], 65), r["mode"]) for r in records[1:]])
+                [(tuple(r["measure"]), min(r["N"], 65), r["mode"]) if r["op"] == "sample" else ("gate", r["site"])
+                 for r in records[1:]])
     out = {"ops": run.ops_done, "digest": run.log.digest(), "fired": dict(run.seams.fired), "probes": dict(run.probes),
            "kernel_calls": dict(run.seams.calls), "trace_key": key, "states": [H("st", k) for k in run.state_keys],
            "raised_ok": 0, "clock_reads": run.seams.clock.reads, "sim_clock_s": run.seams.clock.now - 1.0e9,
